@@ -90,9 +90,11 @@ type Scenario struct {
 	Forks     int
 	MaxLen    int
 	Unanimous bool
-	MaxEvents int
-	Strategy  Strategy
-	PowerDesc string
+	// SplitInputs: members of group A propose the main chain, everybody else the first fork.
+	SplitInputs bool
+	MaxEvents   int
+	Strategy    Strategy
+	PowerDesc   string
 }
 
 type evKind int
@@ -152,10 +154,10 @@ type World struct {
 	Adv  *Adversary
 	Part []*host // per member index (nil for Byz/Silent)
 
-	tables   []*Table          // per instance
+	tables   []*Table                 // per instance
 	inputs   []map[int]*gpbft.ECChain // per instance: member index -> planned input
-	bases    []*gpbft.TipSet   // per instance base (decided head of previous)
-	mainTips [][]*gpbft.TipSet // per instance: the tree's main chain (for samples)
+	bases    []*gpbft.TipSet          // per instance base (decided head of previous)
+	mainTips [][]*gpbft.TipSet        // per instance: the tree's main chain (for samples)
 	idx      map[gpbft.ActorID]int
 
 	Events     int
@@ -330,6 +332,12 @@ func (w *World) planInstance(k int) {
 	for f := 0; f < sc.Forks; f++ {
 		d := rng.Intn(mainLen + 1)
 		tail := rng.Intn(maxLen-min(d, maxLen-1)) + 0
+		if sc.SplitInputs && f == 0 {
+			d = rng.Intn(mainLen)
+			if tail == 0 {
+				tail = 1
+			}
+		}
 		tips := append([]*gpbft.TipSet{}, main[:d]...)
 		e := base.Epoch
 		if d > 0 {
@@ -348,7 +356,12 @@ func (w *World) planInstance(k int) {
 		}
 		v := vars[0]
 		cut := len(v.tips)
-		if !sc.Unanimous {
+		if sc.SplitInputs {
+			if !sc.GroupA[m.ID] && len(vars) > 1 {
+				v = vars[1]
+			}
+			cut = len(v.tips)
+		} else if !sc.Unanimous {
 			v = vars[rng.Intn(len(vars))]
 			cut = len(v.tips)
 			switch rng.Intn(4) {
@@ -451,7 +464,9 @@ func (h *host) SetAlarm(at time.Time) {
 	w.push(&event{at: fire, kind: evAlarm, dst: h.i, gen: h.alarmGen})
 }
 
-func (h *host) Verify(pk gpbft.PubKey, msg, sig []byte) error { return vsig.Backend{}.Verify(pk, msg, sig) }
+func (h *host) Verify(pk gpbft.PubKey, msg, sig []byte) error {
+	return vsig.Backend{}.Verify(pk, msg, sig)
+}
 func (h *host) Aggregate(keys []gpbft.PubKey) (gpbft.Aggregate, error) {
 	return vsig.Backend{}.Aggregate(keys)
 }
@@ -604,6 +619,11 @@ func (w *World) Inject(from int, msg *gpbft.GMessage, dests []int, delay time.Du
 		if k == Silent || k == Byz {
 			continue
 		}
+		if w.Sc.Strategy.FastLinks {
+			// the adversary's own links are as fast as it likes: deliver after `delay` plus a tick
+			w.push(&event{at: w.now.Add(delay + time.Millisecond), kind: evDeliver, dst: to, msg: msg, from: from, byz: true})
+			continue
+		}
 		w.send(from, to, msg, true, delay)
 	}
 }
@@ -690,7 +710,7 @@ func (w *World) mix(x uint64) {
 	w.traceHash = (w.traceHash ^ x) * 0x100000001b3
 }
 
-func (w *World) TraceHash() uint64 { return w.traceHash }
+func (w *World) TraceHash() uint64  { return w.traceHash }
 func (w *World) StopReason() string { return w.stopWhy }
 
 func (w *World) allDone() bool {
